@@ -330,7 +330,89 @@ def c15(pid, tier, seed, workdir):
     return cov, assumptions, findings
 
 
+def c20_key(rec):
+    try:
+        r = json.loads(rec)
+        if r.get("k") == "run":
+            return "drop of a %s-turn capture-free history on a %s-byte stack" % (r.get("n"), r.get("stack"))
+        return "stack bisection n1=%s n2=%s" % (r.get("n1"), r.get("n2"))
+    except Exception:
+        return rec[:80]
+
+
+def c20(pid, tier, seed, workdir):
+    import vcheck
+    from vcheck import sh
+    findings = []
+    # S: the two drop disciplines of PList.tla
+    loop = expect_mc_ok(tlc_mc("PList.tla", "mc/MC_droploop.cfg", workers=6, timeout=900, name="droploop"))
+    glue = tlc_mc("PList.tla", "mc/MC_dropglue.cfg", workers=2, timeout=300, name="dropglue")
+    if "Invariant C20_Bounded is violated" not in glue["out"]:
+        raise ToolError("PList.tla: the glue discipline is expected to violate C20_Bounded (the model must distinguish the disciplines):\n" + glue["out"][-1500:])
+    log("[tlc] dropglue: C20_Bounded violated as expected (recursive drop glue is not stack-bounded)")
+    ladder = "25000,100000,400000" if tier == "quick" else "25000,100000,400000,1200000"
+    per = {}
+    total_runs = 0
+    samples = []
+    # the first events of a long game are ordinary engine traces: validate them like any other
+    bindir = build_harness("release")
+    tr = os.path.join(workdir, "longgame_trace.ndjson")
+    rc, o = sh([os.path.join(bindir, "longgame"), "run", "3000", str(2 * 1024 * 1024), str(7 + seed), tr], 600)
+    if rc != 0:
+        # exit 3 = the driver's walk got stuck (says nothing about the engine); anything else is data
+        if rc != 3:
+            rec = json.dumps({"k": "run", "n": 3000, "stack": 2097152, "survived": 0, "status": "exit%d" % rc})
+            raise Violation(pid, _write_replay(pid, seed, "short", [rec]), "3000-turn game aborted: rc=%d %s" % (rc, o[-300:]))
+    r = validate_trace(tr, "ALL")
+    if not r["accepted"]:
+        replay = extract_replay(pid, tr, r["rejected_at"], seed, "trace")
+        raise Violation(pid, replay, "long-game prefix rejected by the trace specification: %s" % "; ".join("%s line %s: %s" % f for f in r["fails"]))
+    for profile in ("release", "plain"):
+        bindir = build_harness(profile)
+        out = os.path.join(workdir, "ladder_%s.ndjson" % profile)
+        rc, o = sh([os.path.join(bindir, "longgame"), "ladder", out, str(seed), ladder, "2000", "32000"], 3000)
+        if rc != 0:
+            raise ToolError("longgame ladder failed rc=%s: %s" % (rc, o[-1000:]))
+        v = validate_trace(out, pid, cfg="Probe.cfg", module="DropTrace.tla")
+        fails = []
+        if not v["accepted"]:
+            lines = vcheck.read_events(out)
+            for (p_, ln, what) in v["fails"]:
+                fails.append((int(ln), what, lines[int(ln) - 1].strip()))
+            if not fails:
+                raise ToolError("DropTrace rejected without naming a record:\n" + v["out"][-1500:])
+        findings += report_probe_fails(pid, fails, seed, "ladder_" + profile, c20_key)
+        recs = [json.loads(x) for x in vcheck.read_events(out)]
+        per[profile] = [{k: x.get(k) for k in ("k", "n", "stack", "survived", "status", "n1", "min1", "n2", "min2") if k in x} for x in recs if x.get("k") != "done"]
+        total_runs += len(recs) - 1
+        samples = samples or recs[:2] + [x for x in recs if x.get("k") == "bisect"]
+        log("[ladder] profile=%s %s" % (profile, json.dumps(per[profile])))
+    cov = {
+        "states": loop["distinct"] + glue["distinct"], "transitions": loop["generated"] + glue["generated"],
+        "traces_validated_against_impl": 1 + 2,
+        "evaluations": total_runs + r["lines"], "distinct_nontrivial": total_runs,
+        "rule": "S: PList.tla, all programs of append/clone/tail/drop over <= 7 nodes and <= 3 handles under both drop disciplines (loop: stack depth <= 1 proved "
+                "for the model; glue: violates any bound, as expected). Binding by observation: capture-free games of n turns (ladder %s) played through the public API "
+                "in child processes on a 2 MiB thread, final state cloned, queried and dropped; minimal surviving stack bisected at n=2000 and n=32000; in two build "
+                "profiles; DropTrace.tla accepts iff all runs survive and the minimal stack does not grow with n. First 3000 turns also trace-validated (PROP=ALL). "
+                "Non-trivial = every ladder run (history far beyond any recursion the stack could hold)" % ladder,
+        "samples": samples, "ladder": per, "exhaustive": False,
+    }
+    return cov, TRUSTED[:3] + ["stack depth is observed at process level (abort / survival / bisection), not by TLC"], findings
+
+
+def _write_replay(pid, seed, tag, recs):
+    from vcheck import REPLAYS
+    os.makedirs(REPLAYS, exist_ok=True)
+    dst = os.path.join(REPLAYS, "%s-%s-%s.ndjson" % (pid, seed, tag))
+    with open(dst, "w") as f:
+        for r in recs:
+            f.write(r + "\n")
+    return dst
+
+
 PROPS = {}
+PROPS["C20"] = c20
 PROPS["C16"] = c16
 PROPS["C17"] = c17
 for _p in ("C01", "C02", "C03", "C04", "C05", "C06", "C07", "C08", "C09", "C10", "C12", "C13", "C14", "C15", "C19"):
@@ -338,7 +420,7 @@ for _p in ("C01", "C02", "C03", "C04", "C05", "C06", "C07", "C08", "C09", "C10",
 PROPS["C15"] = c15
 
 
-PROBE_MODULES = {"C16": "NotationTrace.tla", "C17": "HashTrace.tla"}
+PROBE_MODULES = {"C16": "NotationTrace.tla", "C17": "HashTrace.tla", "C20": "DropTrace.tla"}
 PROBE_REPLAY_HINT = {"C15": "DiagramTrace.tla"}
 PROBE_CFG = {"C17": "ProbeHash.cfg"}
 
